@@ -77,6 +77,9 @@ func domain(thorough bool, level int) []msg {
 			// strided processing of leading blocks only shows for particular length classes
 			d = prod(d, rng(65, 420), []int{5}, -1)
 			d = prod(d, []int{17}, rng(41, 420), -1)
+			// windows around powers of two up to 8 KiB (batch / chunk sizes): plaintext and AD separately
+			d = prod(d, ref.LongLengths(13, 2), []int{5}, -1)
+			d = prod(d, []int{17}, ref.LongLengths(13, 2), -1)
 		case 1:
 			d = prod(d, append(rng(0, 17), 31, 32, 33, 48, 64, 255, 256, 257), []int{-1, 0, 1, 17}, -1)
 			d = prod(d, []int{0, 17}, []int{256}, -1)
@@ -96,6 +99,8 @@ func domain(thorough bool, level int) []msg {
 		}
 		d = prod(d, rng(81, 1300), []int{-1, 5}, -1)
 		d = prod(d, []int{17, 64}, rng(41, 1300), -1)
+		d = prod(d, ref.LongLengths(16, 17), []int{-1, 5}, -1)
+		d = prod(d, []int{17}, ref.LongLengths(16, 17), -1)
 	case 1:
 		d = prod(d, append(rng(0, 33), 63, 64, 65, 255, 256, 257, 1023, 1024, 1025), []int{-1, 0, 1, 16, 17}, -1)
 		d = prod(d, []int{65535, 65536, 65537}, []int{-1}, -1)
